@@ -30,3 +30,144 @@ Proof.
   - intros [Hrow Hsp]. apply (table_has_rows F cast wz sort_original files code txt) in Hrow.
     destruct Hrow as [w Hth]. eauto.
 Qed.
+
+(** * table translator, end to end: (syllabary, algebra, source rows, input) -> candidates *)
+From RimeV Require Import Lookup.IterProofs Lookup.TableProofs Lookup.ComposePrism.
+From RimeV Require Dict.AlgebraProofs.
+Module AP := RimeV.Dict.AlgebraProofs.
+
+Lemma Forall2_in_l {A B} (R : A -> B -> Prop) l1 l2 a :
+  Forall2 R l1 l2 -> In a l1 -> exists b, In b l2 /\ R a b.
+Proof.
+  induction 1 as [|x y l1 l2 Hxy _ IH]; intros H; [destruct H|].
+  destruct H as [<-|H]; [exists y; split; [now left|exact Hxy]|]. destruct (IH H) as [b [Hb Hr]]. exists b. split; [now right|exact Hr].
+Qed.
+
+Lemma Forall2_in_r {A B} (R : A -> B -> Prop) l1 l2 b :
+  Forall2 R l1 l2 -> In b l2 -> exists a, In a l1 /\ R a b.
+Proof.
+  induction 1 as [|x y l1 l2 Hxy _ IH]; intros H; [destruct H|].
+  destruct H as [<-|H]; [exists x; split; [now left|exact Hxy]|]. destruct (IH H) as [a [Ha Hr]]. exists a. split; [now right|exact Hr].
+Qed.
+
+Section TableEndToEnd.
+Variables (F : Type) (cast : Vo.dec -> F) (wz : F -> Z).
+Variables (fcred : Type) (fcast : Z -> fcred).
+Variables (sort_original : bool) (files : list (Vo.colspec * list Base.Bytes.bytes)).
+Variables (calcs : list Al.calc) (sc : Al.script).
+
+Let col := Vo.collect_files files.
+Let syls := Vo.co_syll col.                                     (* the collected syllabary *)
+Let t := conv_head F wz (Ix.build_head cast (length syls) (Vo.compile_vocab sort_original col)).
+Let p := PM.compile fcred fcast syls calcs.                     (* dict_compiler.cc: syllabary -> algebra -> prism *)
+
+Hypothesis syls_nonempty : forall s, In s syls -> s <> [].
+Hypothesis syls_nodup : NoDup syls.                             (* Syllabary = std::set<string> *)
+Hypothesis HC : Al.compile_script syls calcs = Some sc.
+
+Lemma p_wf : PP.wf_prism fcred p.
+Proof. apply PP.build_wf. Qed.
+
+Lemma p_keys_nodup : NoDup (PM.p_keys fcred p).
+Proof.
+  unfold p, PM.compile. rewrite HC. cbn [PM.build PM.p_keys].
+  destruct (AP.compile_script_some _ _ _ HC) as (-> & _ & _). apply AP.ssorted_NoDup. apply AP.script_always_sorted.
+Qed.
+
+(** a word entry of the source: a row whose code is the single syllable of id [sid] *)
+Definition word_row (sid : nat) (tx : Base.Bytes.bytes) : Prop :=
+  exists cs ws, In (Vo.LRow tx cs ws) (TP.source_rows files) /\ cs <> [] /\
+                map (Vo.id_of syls) (Vo.split_skip x20 cs) = [sid].
+
+(** the input spells the syllable [sid] with a normal spelling: the script the algebra produces has it *)
+Definition spells_normal (code : Base.Bytes.bytes) (sid : nat) : Prop :=
+  exists l x, Al.map_find code sc = Some l /\ In x l /\ Al.ptype (Al.sprops x) = 0 /\ nth_error syls sid = Some (Al.sstr x).
+
+Lemma key_of_match code sps :
+  In (conv_text code, sps) (prism_at fcred fcast p code) ->
+  exists v, PM.get_value fcred p code = Some v /\ sps = spellings_of fcred fcast p v.
+Proof.
+  unfold prism_at. intros H. apply in_map_iff in H. destruct H as [[v n] [E Hm]].
+  unfold conv_match in E. cbn [fst] in E. injection E as Et <-.
+  apply (PP.expand_members fcred p code v n p_wf p_keys_nodup) in Hm. destruct Hm as [w [Hn _]].
+  assert (Ek : nth v (PM.p_keys fcred p) [] = code ++ w) by (now apply nth_error_nth).
+  rewrite Ek in Et. apply (f_equal (@length _)) in Et. rewrite !conv_text_length, app_length in Et.
+  assert (w = []) by (destruct w; [reflexivity|cbn in Et; lia]). subst w. rewrite app_nil_r in Hn.
+  exists v. split; [|reflexivity]. rewrite PP.get_value_index. now apply PP.index_of_NoDup; [apply p_keys_nodup|].
+Qed.
+
+(** completion off: every candidate is a word row of a syllable the input spells normally ... *)
+Theorem table_plain_sound smap code d :
+  In d (table_entries true false (prism_at fcred fcast p code) smap t (conv_text code)) ->
+  exists sid tx, d_code d = [sid] /\ d_text d = conv_text tx /\ d_remlen d = 0 /\
+                 spells_normal code sid /\ word_row sid tx.
+Proof.
+  intros H. apply table_no_completion_when_disabled in H. destruct H as (R & sps & sid & Hk & Hs & Hc & Hn).
+  destruct (key_of_match code sps Hk) as [v [Hv ->]].
+  destruct (PP.prism_roundtrip_compiled fcred fcast syls calcs sc syls_nonempty HC) as [R1 R2]. fold p in R1, R2.
+  destruct (Al.map_find code sc) as [l|] eqn:Ef; [|rewrite (R2 code Ef) in Hv; discriminate].
+  destruct (R1 code l Ef) as (i & Hi & _ & F2). rewrite Hv in Hi. injection Hi as <-.
+  unfold spellings_of in Hs. apply in_map_iff in Hs. destruct Hs as [d0 [E0 Hd0]]. unfold conv_desc in E0. injection E0 as Es Et.
+  destruct (Forall2_in_l _ _ _ d0 F2 Hd0) as [x [Hx (M1 & M2 & _)]].
+  assert (Hth : table_has t [sid] (mkTE (d_text d) (d_w d))) by (left; split; [cbn; lia|exact Hn]).
+  destruct (proj1 (table_has_rows F cast wz sort_original files [sid] (d_text d)) (ex_intro (fun w => table_has t [sid] (mkTE (d_text d) w)) (d_w d) Hth)) as [_ (tx & cs & ws & Hrow & Ncs & Etx & Ecode)].
+  exists sid, tx. split; [exact Hc|]. split; [exact Etx|]. split; [exact R|]. split.
+  - exists l, x. split; [exact Ef|]. split; [exact Hx|]. split; [congruence|]. now rewrite <- Es.
+  - exists cs, ws. auto.
+Qed.
+
+(** ... and every such word row is among the candidates *)
+Theorem table_plain_complete smap code sid tx :
+  spells_normal code sid -> word_row sid tx ->
+  exists d, In d (table_entries true false (prism_at fcred fcast p code) smap t (conv_text code)) /\
+            d_code d = [sid] /\ d_text d = conv_text tx.
+Proof.
+  intros (l & x & Ef & Hx & Ht & Hn) (cs & ws & Hrow & Ncs & Ecode).
+  destruct (PP.prism_roundtrip_compiled fcred fcast syls calcs sc syls_nonempty HC) as [R1 _]. fold p in R1.
+  destruct (R1 code l Ef) as (i & Hi & _ & F2).
+  destruct (Forall2_in_r _ _ _ x F2 Hx) as [d0 [Hd0 (M1 & M2 & _)]].
+  assert (Esid : PM.d_syll fcred d0 = sid).
+  { rewrite <- Hn in M1. apply (proj1 (NoDup_nth_error syls) syls_nodup); [|exact M1]. apply nth_error_Some. congruence. }
+  (* the table has the word under [sid] *)
+  assert (Hth : exists w, table_has t [sid] (mkTE (conv_text tx) w)).
+  { apply (table_has_rows F cast wz sort_original files [sid] (conv_text tx)). split; [discriminate|]. exists tx, cs, ws. auto. }
+  destruct Hth as [w [[_ Hin]|[L _]]]; [|cbn in L; lia].
+  assert (NEn : node_ents t [sid] <> []) by (intros E; rewrite E in Hin; destruct Hin).
+  (* the chunk of [sid] is among the chunks LookupWords adds *)
+  set (pr := prism_at fcred fcast p code).
+  assert (Ex : exact_key pr (conv_text code) = Some (spellings_of fcred fcast p i)).
+  { unfold pr. rewrite (exact_key_prism_at fcred fcast p p_wf code), Hi. reflexivity. }
+  assert (Hs : In (sid, 0) (spellings_of fcred fcast p i)).
+  { unfold spellings_of. apply in_map_iff. exists d0. split; [|exact Hd0]. unfold conv_desc. now rewrite Esid, M2, Ht. }
+  set (ch := mkChunk [sid] (node_ents t [sid]) 0 1 0%Z).
+  assert (Hch : In ch (plain_chunks pr smap t (conv_text code))).
+  { unfold plain_chunks, lookup_words. rewrite Ex. cbn [snd]. apply words_chunks_spec. exists sid. split; [exact Hs|].
+    split; [exact NEn|]. unfold ch. reflexivity. }
+  assert (NE : Forall nonempty (plain_chunks pr smap t (conv_text code))).
+  { rewrite Forall_forall. intros c Hc. destruct (lookup_words_exact pr smap t (conv_text code) c Hc) as [[? [? [_ [_ [_ [_ [_ [H _]]]]]]]] _]. exact H. }
+  exists (mk_dentry ch (mkTE (conv_text tx) w)). split; [|split; reflexivity].
+  unfold table_entries. cbn [maybe_sort]. fold (plain_chunks pr smap t (conv_text code)).
+  eapply Permutation_in; [symmetry; apply drain_all_perm; eapply Permutation_Forall; [apply sort_head_perm|exact NE]|].
+  eapply Permutation_in; [apply all_entries_perm; apply sort_head_perm|].
+  unfold all_entries. apply in_flat_map. exists ch. split; [exact Hch|]. unfold entries_of. apply in_map. exact Hin.
+Qed.
+
+(** completion on: every candidate is a word of a syllable spelled by a key that extends the input *)
+Theorem table_completion_sound_e2e smap code d :
+  In d (table_entries true true (prism_at fcred fcast p code) smap t (conv_text code)) ->
+  exists sid tx key, d_code d = [sid] /\ d_text d = conv_text tx /\ word_row sid tx /\
+                     In key (PM.p_keys fcred p) /\ (exists w, key = code ++ w) /\
+                     exists v, PM.get_value fcred p key = Some v /\ In (sid, 0) (spellings_of fcred fcast p v).
+Proof.
+  intros H. apply table_completion_candidates_sound in H. destruct H as (key & sps & sid & Hp & Hk & Hs & Hc & Hn).
+  unfold prism_at in Hk. apply in_map_iff in Hk. destruct Hk as [[v n] [E Hm]].
+  unfold conv_match in E. cbn [fst] in E. injection E as Et Esp.
+  apply (PP.expand_members fcred p code v n p_wf p_keys_nodup) in Hm. destruct Hm as [w [Hnk _]].
+  assert (Hth : table_has t [sid] (mkTE (d_text d) (d_w d))) by (left; split; [cbn; lia|exact Hn]).
+  destruct (proj1 (table_has_rows F cast wz sort_original files [sid] (d_text d)) (ex_intro (fun w => table_has t [sid] (mkTE (d_text d) w)) (d_w d) Hth)) as [_ (tx & cs & ws & Hrow & Ncs & Etx & Ecode)].
+  exists sid, tx, (code ++ w). split; [exact Hc|]. split; [exact Etx|]. split; [exists cs, ws; auto|].
+  split; [eapply nth_error_In; exact Hnk|]. split; [eauto|].
+  exists v. split; [rewrite PP.get_value_index; apply PP.index_of_NoDup; [apply p_keys_nodup|exact Hnk]|]. now rewrite Esp.
+Qed.
+
+End TableEndToEnd.
